@@ -82,7 +82,7 @@ CLASS_NAMES = {1: "lib.pyvals.OpaqueA", 2: "lib.pyvals.OpaqueB"}
 # values that match none, and the pattern texts themselves (a pattern is not a literal: 'eu-west-[12]' does not select
 # the recording whose value is the text 'eu-west-[12]')
 REGIONS = ["eu-west-1", "eu-west-2", "eu-west-3", "us-east-1", "eu-west-[12]", "ax", "bx", "cx", "[!a]x", "a[1]", "a*", "a?",
-           "ab", "-", "]", "[a-"]
+           "ab", "-", "]", "[a-", "eu-west-12", "EU-WEST-1", "Bx", "xbx"]      # longer / other case / match inside only
 PATTERNS = ["eu-west-[12]", "eu-west-[!12]", "eu-west-[1-2]", "eu-west-[3-9]", "eu-*-[12]", "eu-west-[[]12]", "e[tu]-west-?",
             "[!a]x", "[a-b]x", "[!a-b]x", "a[[]1[]]", "a[*]", "a[?]", "a[!*]", "[]-]", "[!]]", "[a-", "us-east-[1]",
             "[ue][us]-*"]
